@@ -205,6 +205,21 @@ class SumAggregator:
                 return False
         return True
 
+    @staticmethod
+    def _group_in_tuple(trigger_lit: AST, trigger_anon_pred: AnnotatedPredicate, terms: list[AST]) -> bool:
+        """True if all variables that identify the group of the trigger literal also occur in the tuple,
+        otherwise equal values of different groups form one tuple and may not be counted per group"""
+        tuple_vars = set()
+        for term in terms:
+            tuple_vars.update(collect_ast(term, "Variable"))
+        for index, arg in enumerate(trigger_lit.atom.symbol.arguments):
+            if index in trigger_anon_pred.annotated_positions:
+                continue
+            for var in collect_ast(arg, "Variable"):
+                if var.name != "_" and var not in tuple_vars:
+                    return False
+        return True
+
     def _replace_elements(self, elements: list[AST], prg: list[AST]) -> list[AST]:
         newelements = []
         for elem in elements:
@@ -220,6 +235,9 @@ class SumAggregator:
                     newelements.append(elem)
                     continue
                 trigger_lit, trigger_index, trigger_anon_pred = trigger
+                if not self._group_in_tuple(trigger_lit, trigger_anon_pred, list(elem.terms[1:])):
+                    newelements.append(elem)
+                    continue
                 log.info(f"Replace {trigger_anon_pred.pred.name}/{trigger_anon_pred.pred.arity} inside an aggregate.")
 
                 old_condition = elem.condition
@@ -318,6 +336,8 @@ class SumAggregator:
         if trigger is None:
             return [minimize]
         trigger_lit, trigger_index, trigger_anon_pred = trigger
+        if not self._group_in_tuple(trigger_lit, trigger_anon_pred, list(minimize.terms)):
+            return [minimize]
         log.info(f"Replace {trigger_anon_pred.pred.name}/{trigger_anon_pred.pred.arity} inside an objective function.")
 
         old_condition = minimize.body
